@@ -59,7 +59,7 @@ def simulate(d, name, prog, num, depth=80, seed=1, ops=0, dups=0, kinds=('pause'
                  'MCSpec == MCInit /\\ [][Next]_vars\nTimeBound == now <= 20 /\\ InDomain\nMCOpKinds == %s\n====\n'
                  % (mc, engmodel.def_tla(prog), common.tla(set(kinds))))
     with open(os.path.join(d, mc + '.cfg'), 'w') as fh:
-        fh.write('SPECIFICATION MCSpec\nCONSTRAINT TimeBound\nCONSTANT OpBudget = %d\nCONSTANT DupBudget = %d\nCONSTANT NoopOps = FALSE\n'
+        fh.write('SPECIFICATION MCSpec\nCONSTRAINT TimeBound\nCONSTANT OpBudget = %d\nCONSTANT DupBudget = %d\nCONSTANT NoopOps = FALSE\nCONSTANT QuietRerun = FALSE\n'
                  'CONSTANT OpKinds <- MCOpKinds\nCONSTANT Scheduler = "default"\nCHECK_DEADLOCK FALSE\n' % (ops, dups))
     sd = os.path.join(d, 'sim_' + mc)
     shutil.rmtree(sd, ignore_errors=True)
@@ -87,7 +87,7 @@ def probe(d, name, prog, formula, ops=0, dups=0, kinds=('pause', 'resume', 'stop
                  'MCSpec == MCInit /\\ [][Next]_vars\nTimeBound == now <= 20 /\\ InDomain\nMCOpKinds == %s\nNotReached == ~(%s)\n====\n'
                  % (mc, engmodel.def_tla(prog), common.tla(set(kinds)), formula))
     with open(os.path.join(d, mc + '.cfg'), 'w') as fh:
-        fh.write('SPECIFICATION MCSpec\nCONSTRAINT TimeBound\nCONSTANT OpBudget = %d\nCONSTANT DupBudget = %d\nCONSTANT NoopOps = FALSE\n'
+        fh.write('SPECIFICATION MCSpec\nCONSTRAINT TimeBound\nCONSTANT OpBudget = %d\nCONSTANT DupBudget = %d\nCONSTANT NoopOps = FALSE\nCONSTANT QuietRerun = FALSE\n'
                  'CONSTANT OpKinds <- MCOpKinds\nCONSTANT Scheduler = "default"\nINVARIANT NotReached\nCHECK_DEADLOCK FALSE\n' % (ops, dups))
     r = common.run_tlc(os.path.join(d, mc + '.tla'), os.path.join(d, mc + '.cfg'), timeout=timeout, metatag=mc)
     if 'NotReached' not in r.inv_violations:
@@ -142,8 +142,8 @@ def _msg_label(w, m, ids):
         return ('start_task', sid.split('/')[-1].split('#')[0], 0, bool(_kw(m, 'first_run')), '')
     if m.method in ('run_action', 'on_action_complete'):
         sid = ids['ax_rev'].get(_kw(m, 'action_ex_id'), '')
-        mm = re.match(r'r/(\w+)#0@0\.(\d+)$', sid)
-        name, k = (mm.group(1), int(mm.group(2)) + 1) if mm else ('', 0)
+        mm = re.match(r'r/(\w+)#0@(\d+)\.(\d+)$', sid)
+        name, k = (mm.group(1), (int(mm.group(2)), int(mm.group(3)) + 1)) if mm else ('', (0, 0))
         res = ''
         if m.method == 'on_action_complete':
             r = _kw(m, 'result')
@@ -159,7 +159,7 @@ def _msg_label(w, m, ids):
 
 
 FUNCS = {'_refresh_task_state': 'refresh', '_check_and_fix_integrity': 'integrity', '_continue_task': 'continue',
-         '_complete_task': 'complete', '_fail_task_if_incomplete': 'timeout'}
+         '_complete_task': 'complete', '_fail_task_if_incomplete': 'timeout', '_scheduled_on_action_complete': 'items'}
 
 
 def _job_label(w, row, ids):
@@ -169,8 +169,17 @@ def _job_label(w, row, ids):
     t = ''
     mm = re.search(r'[0-9a-f]{8}-[0-9a-f]{4}-[0-9a-f]{4}-[0-9a-f]{4}-[0-9a-f]{12}', str(args))
     if func != 'integrity' and mm:
-        t = ids['tk_rev'].get(mm.group(0), '').split('/')[-1].split('#')[0]
+        sid = ids['tk_rev'].get(mm.group(0)) or ids['ax_rev'].get(mm.group(0), '').rsplit('@', 1)[0]
+        t = sid.split('/')[-1].split('#')[0]
     return func, t
+
+
+def _ax_key(seq, k):
+    """(item index, ordinal among the executions of that item) of the k-th action execution (1-based) of a model task."""
+    if not (1 <= k <= len(seq)):
+        return (0, 0)
+    i = seq[k - 1]['i']
+    return (i, sum(1 for r in seq[:k] if r['i'] == i))
 
 
 def compare(model, obs, w):
@@ -193,17 +202,21 @@ def compare(model, obs, w):
         if n not in rows:
             return 'task %s: model %s, code has no row' % (n, mt['state'])
         x = rows[n]
-        if (mt['state'], sorted(mt['next']), mt['processed'], mt['errHandled'], mt.get('retryNo', 0)) != \
-                (x['state'], sorted(x['next']), x['processed'], x['errHandled'], x.get('retryNo', 0)):
-            return 'task %s: model %s, code %s' % (n, (mt['state'], sorted(mt['next']), mt['processed'], mt['errHandled']),
-                                                   (x['state'], sorted(x['next']), x['processed'], x['errHandled']))
+        if (mt['state'], sorted(mt['next']), mt['processed'], mt['errHandled'], mt.get('retryNo', 0), mt.get('wiCount', -1), mt.get('wiCap', -1)) != \
+                (x['state'], sorted(x['next']), x['processed'], x['errHandled'], x.get('retryNo', 0), x.get('wiCount', -1), x.get('wiCap', -1)):
+            return 'task %s: model %s, code %s' % (n, (mt['state'], sorted(mt['next']), mt['processed'], mt['errHandled'], mt.get('wiCount'), mt.get('wiCap')),
+                                                   (x['state'], sorted(x['next']), x['processed'], x['errHandled'], x.get('wiCount'), x.get('wiCap')))
     for n, seq in model['ax'].items():
         mine = [a for a in obs['ax'] if a['task'] == 'r/%s#0' % n]
         got = {}
         for a in mine:
-            got[int(a['sid'].rsplit('.', 1)[1])] = a['state']
-        if [got.get(i) for i in range(len(seq))] != list(seq) or len(got) != len(seq):
-            return 'actions of %s: model %s, code %s' % (n, list(seq), got)
+            mm = re.search(r'@(\d+)\.(\d+)$', a['sid'])
+            got[(int(mm.group(1)), int(mm.group(2)) + 1)] = (a['state'], bool(a['accepted']))
+        want = {}
+        for k, r in enumerate(seq):
+            want[_ax_key(seq, k + 1)] = (r['s'], bool(r['a']))
+        if got != want:
+            return 'actions of %s: model %s, code %s' % (n, sorted(want.items()), sorted(got.items()))
     pend = w.pending_counts()
     if len(model['msgs']) != pend['msgs']:
         return 'in-flight messages: model %d, code %d' % (len(model['msgs']), pend['msgs'])
@@ -270,7 +283,8 @@ def run_behaviour(prog, states, seed=0):
                     raise OrderChoice('PtqStep(%s %s): the code sends %s first' % (e['op'], e['t'], lab[1]))
                 st = ('ptq', bmap[cand[0]['id']])
             elif a in ('Deliver', 'Dup'):
-                want = (e['m'], e['t'], e['k'], e['fr'], e['res'] if e['m'] == 'on_action_complete' else '')
+                kk = _ax_key(prev['ax'].get(e['t'], []), e['k']) if e['m'] in ('run_action', 'on_action_complete') else 0
+                want = (e['m'], e['t'], kk, e['fr'], e['res'] if e['m'] == 'on_action_complete' else '')
                 if e['m'] == 'start_workflow':
                     cands = [mid for mid, m in w.msgs.items() if m.method == 'start_workflow']
                 else:
@@ -301,6 +315,11 @@ def run_behaviour(prog, states, seed=0):
                 st = ('op', 'resume', root_id[0])
             elif a == 'OpStop':
                 st = ('op', 'stop', root_id[0], e['s'], 'stopped by operator')
+            elif a in ('OpRerun', 'OpSkip'):
+                tid = ids['tk'].get('r/%s#0' % e['t'])
+                if tid is None:
+                    raise Mismatch('%s(%s): no such task row in the real world' % (a, e['t']))
+                st = ('op', 'rerun', tid, bool(e.get('reset', True)), a == 'OpSkip')
             elif a == 'Tick':
                 st = ('tick', cur['now'])
             else:
